@@ -328,7 +328,7 @@ func (w *c20Buf) Write(p []byte) (int, error) {
 }
 
 // c20Blame finds the first token that alone is rendered wrongly / panics, for the feature record.
-func c20Blame(toks []c20Tok, e *Event) (field, addr string) {
+func c20Blame(toks []c20Tok, e *Event, wantPanic bool) (field, addr string) {
 	field, addr = "combination", "n/a"
 	for _, t := range toks {
 		if t.K != "field" && t.K != "header" {
@@ -339,7 +339,7 @@ func c20Blame(toks []c20Tok, e *Event) (field, addr string) {
 			continue
 		}
 		_, out, _, p, _ := c20Run(t.V, e)
-		if p != nil || !(c20In(strings.TrimSuffix(out, "\n"), want)) {
+		if (wantPanic && p != nil) || (!wantPanic && (p != nil || !c20In(strings.TrimSuffix(out, "\n"), want))) {
 			field = t.V
 			if t.K == "header" {
 				field = "$header.*"
@@ -359,7 +359,7 @@ func c20Blame(toks []c20Tok, e *Event) (field, addr string) {
 func c20Feat(clause string, toks []c20Tok, e *Event) map[string]any {
 	field, addr := "n/a", "n/a"
 	if e != nil {
-		field, addr = c20Blame(toks, e)
+		field, addr = c20Blame(toks, e, clause == "panic")
 	}
 	return map[string]any{"sub": "logger", "clause": clause, "field": field, "addr": addr}
 }
@@ -367,9 +367,9 @@ func c20Feat(clause string, toks []c20Tok, e *Event) map[string]any {
 type c20Rec struct {
 	Fmt    []c20Tok  `json:"fmt"`
 	Accept bool      `json:"accept"`
-	Ev    *c20Event `json:"ev,omitempty"`
-	Lines []string  `json:"lines,omitempty"`
-	Note  string    `json:"note,omitempty"`
+	Ev     *c20Event `json:"ev,omitempty"`
+	Lines  []string  `json:"lines,omitempty"`
+	Note   string    `json:"note,omitempty"`
 }
 
 // c20Check judges one (format tokens, abstract event, TLC's admissible lines or nil).
@@ -490,8 +490,8 @@ func c20RandEvent(r *rand.Rand) (*c20Event, bool) {
 	if r.Intn(8) == 0 {
 		hh, mi, ss = 23, 59, 59
 	}
-	if y < 1678 || y > 2261 {
-		unixOK = false
+	if y < 1970 || y > 2261 {
+		unixOK = false // before the epoch ms/us of a negative UnixNano: truncation and floor are both "standard"; after 2262 UnixNano is undefined
 	}
 	var dur int64
 	switch r.Intn(6) {
